@@ -116,17 +116,18 @@ Proof.
   intros Hk. constructor; cbn; auto; try constructor; try (intros y Hy; congruence).
 Qed.
 
-Lemma slink_all_externally_spec s2 l2 a :
+(** The chain is requested from (and on failure given back to) the DESTINATION's allocator family. *)
+Lemma slink_all_externally_spec s1 s2 l2 a :
   srep s2 l2 -> lok a ->
-  exists r a', sl_link_all_externally s2 a = Ok (r, a') /\ aframe a a' /\
+  exists r a', sl_link_all_externally s1 s2 a = Ok (r, a') /\ aframe a a' /\
     match r with
     | Some (hd, tl, hx) => exists cp, map snd cp = map snd l2 /\ length cp = length l2 /\
-        hd = first_id cp 0 /\ tl = last_id cp 0 /\ schain_ok (sl_mem s2) hx cp a' (live a)
+        hd = first_id cp 0 /\ tl = last_id cp 0 /\ schain_ok (sl_mem s1) hx cp a' (live a)
     | None => live a' = live a /\ lok a' /\ (plan a <> [] \/ limit a < SNODE_BYTES)
     end.
 Proof.
   intros R Hk. unfold sl_link_all_externally. rewrite (sr_size _ _ R), lenN_length, (sr_head _ _ R).
-  exact (slae_loop_spec (sl_mem s2) (sl_heap s2) l2 (length l2) [] [] a (live a) (sr_seg _ _ R) (sr_nz _ _ R)
+  exact (slae_loop_spec (sl_mem s1) (sl_heap s2) l2 (length l2) [] [] a (live a) (sr_seg _ _ R) (sr_nz _ _ R)
            (schain_ok_nil _ _ Hk) eq_refl).
 Qed.
 
@@ -234,9 +235,9 @@ Definition sbulk_ok (s1 : slist) (A B l2 : list (N * N)) (a : alloc_st) (F : lis
    (st = CC_ERR_ALLOC /\ s1' = s1 /\ live a' = live a /\ lok a' /\ (plan a <> [] \/ limit a < SNODE_BYTES))).
 
 (** Facts shared by the two copy operations once the chain [cp] exists. *)
-Lemma scopy_facts s1 l1 s2 (l2 : list (N * N)) a F hx (cp : list (N * N)) a1 :
+Lemma scopy_facts s1 l1 mem (l2 : list (N * N)) a F hx (cp : list (N * N)) a1 :
   srep s1 l1 -> l2 <> [] -> slown a s1 l1 F ->
-  map snd cp = map snd l2 -> length cp = length l2 -> schain_ok (sl_mem s2) hx cp a1 (live a) ->
+  map snd cp = map snd l2 -> length cp = length l2 -> schain_ok mem hx cp a1 (live a) ->
   cp <> [] /\ (forall y, In y (ids l1) -> ~ In y (ids cp)) /\
   sseg (hx ++ sl_heap s1) cp 0 /\ sseg (hx ++ sl_heap s1) l1 0 /\
   (forall y, shget (hx ++ sl_heap s1) y <> None -> In y (ids cp) \/ In y (ids l1)).
@@ -251,16 +252,16 @@ Proof.
 Qed.
 
 Lemma sadd_all_spec s1 l1 s2 l2 a F :
-  srep s1 l1 -> srep s2 l2 -> slown a s1 l1 F -> sl_mem s1 = sl_mem s2 -> l2 <> [] ->
+  srep s1 l1 -> srep s2 l2 -> slown a s1 l1 F -> l2 <> [] ->
   exists st s1' a', sl_add_all s1 s2 a = Ok (st, s1', a') /\ sbulk_ok s1 l1 [] l2 a F st s1' a'.
 Proof.
-  intros R1 R2 Hown Hmem Hl2. unfold sl_add_all. rewrite (srep_size_ne _ _ R2 Hl2).
+  intros R1 R2 Hown Hl2. unfold sl_add_all. rewrite (srep_size_ne _ _ R2 Hl2).
   destruct Hown as [Hk Ho].
-  destruct (slink_all_externally_spec s2 l2 a R2 Hk) as (r & a1 & E & Hf & Hr). rewrite E. cbn [bind].
+  destruct (slink_all_externally_spec s1 s2 l2 a R2 Hk) as (r & a1 & E & Hf & Hr). rewrite E. cbn [bind].
   destruct r as [[[hd tl] hx]|].
   2:{ destruct Hr as (Hl & Hk1 & Hw). do 3 eexists. split; [reflexivity|]. split; [assumption|]. split; [auto|]. right. auto. }
   destruct Hr as (cp & Hcp & Hlen & -> & -> & C).
-  destruct (scopy_facts s1 l1 s2 l2 a F hx cp a1 R1 Hl2 (conj Hk Ho) Hcp Hlen C) as (Hcpne & Hdis & Hsc & Hs1 & Hdom).
+  destruct (scopy_facts s1 l1 (sl_mem s1) l2 a F hx cp a1 R1 Hl2 (conj Hk Ho) Hcp Hlen C) as (Hcpne & Hdis & Hsc & Hs1 & Hdom).
   assert (Hnd3 : NoDup (ids (l1 ++ cp))).
   { pose proof (nodup3 l1 cp [] ltac:(rewrite app_nil_r; apply R1) (sck_nodup _ _ _ _ _ C) ltac:(rewrite app_nil_r; exact Hdis)) as H.
     rewrite app_nil_r in H. exact H. }
@@ -270,7 +271,7 @@ Proof.
   { rewrite (sr_size _ _ R1), (sr_size _ _ R2), lenN_app. unfold lenN. rewrite Hlen. reflexivity. }
   assert (Hown' : forall s', ssame_hdr s1 s' -> slown a1 s' (l1 ++ cp ++ []) F).
   { intros s' Hs'. split; [apply C|]. eapply sowns_insert_many; [exact Ho| |exact Hs'|].
-    - rewrite Hmem. apply C.
+    - apply C.
     - rewrite app_nil_r, ids_app. apply Permutation_app_comm. }
   destruct (sl_size s1 =? 0) eqn:Ez.
   - pose proof (srep_nil_size _ _ R1 Ez) as ->. cbn [app] in *.
@@ -295,18 +296,18 @@ Lemma sadd_all_empty_src s1 s2 a : srep s2 [] -> sl_add_all s1 s2 a = Ok (CC_OK,
 Proof. intros R. unfold sl_add_all. rewrite (sr_size _ _ R). reflexivity. Qed.
 
 Lemma sadd_all_at_spec s1 A b db B' s2 l2 a F :
-  srep s1 (A ++ (b, db) :: B') -> srep s2 l2 -> slown a s1 (A ++ (b, db) :: B') F -> sl_mem s1 = sl_mem s2 -> l2 <> [] ->
+  srep s1 (A ++ (b, db) :: B') -> srep s2 l2 -> slown a s1 (A ++ (b, db) :: B') F -> l2 <> [] ->
   exists st s1' a', sl_add_all_at s1 s2 (lenN A) a = Ok (st, s1', a') /\ sbulk_ok s1 A ((b, db) :: B') l2 a F st s1' a'.
 Proof.
-  intros R1 R2 Hown Hmem Hl2. unfold sl_add_all_at. rewrite (srep_size_ne _ _ R2 Hl2).
+  intros R1 R2 Hown Hl2. unfold sl_add_all_at. rewrite (srep_size_ne _ _ R2 Hl2).
   rewrite (sget_node_at_in _ _ _ _ _ R1). cbn [bind is_ok negb].
   destruct Hown as [Hk Ho].
-  destruct (slink_all_externally_spec s2 l2 a R2 Hk) as (r & a1 & E & Hf & Hr). rewrite E. cbn [bind].
+  destruct (slink_all_externally_spec s1 s2 l2 a R2 Hk) as (r & a1 & E & Hf & Hr). rewrite E. cbn [bind].
   destruct r as [[[hd tl] hx]|].
   2:{ destruct Hr as (Hl & Hk1 & Hw). do 3 eexists. split; [reflexivity|]. split; [assumption|]. split; [auto|]. right. auto. }
   destruct Hr as (cp & Hcp & Hlen & -> & -> & C).
   set (B := (b, db) :: B') in *.
-  destruct (scopy_facts s1 (A ++ B) s2 l2 a F hx cp a1 R1 Hl2 (conj Hk Ho) Hcp Hlen C) as (Hcpne & Hdis & Hsc & Hs1 & Hdom).
+  destruct (scopy_facts s1 (A ++ B) (sl_mem s1) l2 a F hx cp a1 R1 Hl2 (conj Hk Ho) Hcp Hlen C) as (Hcpne & Hdis & Hsc & Hs1 & Hdom).
   pose proof (nodup3 A cp B (sr_nodup _ _ R1) (sck_nodup _ _ _ _ _ C) Hdis) as Hnd3.
   assert (Hnz3 : ~ In 0 (ids (A ++ cp ++ B))).
   { pose proof (sr_nz _ _ R1) as H0. pose proof (sck_nz _ _ _ _ _ C) as H1. rewrite !ids_app, !in_app_iff in *. tauto. }
@@ -315,7 +316,7 @@ Proof.
   { rewrite (sr_size _ _ R1), (sr_size _ _ R2), !lenN_app. unfold lenN. rewrite Hlen. lia. }
   assert (Hown' : forall s', ssame_hdr s1 s' -> slown a1 s' (A ++ cp ++ B) F).
   { intros s' Hs'. split; [apply C|]. eapply sowns_insert_many; [exact Ho| |exact Hs'|].
-    - rewrite Hmem. apply C.
+    - apply C.
     - rewrite !ids_app. rewrite app_assoc. eapply Permutation_trans; [apply Permutation_app_tail, Permutation_app_comm|].
       rewrite <- app_assoc. reflexivity. }
   destruct (sattach_spec (hx ++ sl_heap s1) A cp b db B' Hcpne Hnd3 Hnz3 Hs1 Hsc) as (h' & E2 & Hs' & Hd').
